@@ -3,6 +3,8 @@ import BFL.Core.GaussJordan
 import BFL.Model.KF
 import BFL.Model.KFLik
 import BFL.Driver.GPF
+import BFL.Model.KFHist
+import BFL.Model.Skip
 /-
 Driver entries for the Kalman steps (C01, C02), executed exactly over `Rat`.
 
@@ -118,12 +120,109 @@ def kflik : R String := do
     ratStr (@kfLikelihood Rat _ _ _ _ _ _ _ _ _ DriverGPF.ratTransc n m k inv H Rm y b i)
   pure (join ("ok" :: outs))
 
+/-! ### histories (`Model/KFHist.lean`)
+
+  kfh n k exo sp ss se sc  pred0w corr0(means covs w)  nsteps
+      { ncmd {name on}*  F Q [G g]  hasmeas [m H R y] }*
+  -> "ok" { "step" sp ss se sc cert  pred(means covs w) corr(means covs w)  ("nolik" | "lik" v_1..v_k) }*
+
+`exo`: 0 no exogenous model, 1/2 one is attached (`u = G x + g`, content per step); `sp ss se sc`: the
+flags the objects start with (all 0 for a filter as constructed); commands are `GaussianFilter::skip`
+calls (name 0 prediction, 1 state, 2 exogenous, 3 correction, 4 all), run through the skip model of
+`Model/Skip.lean`; `cert` = every inverse the step took is an exact two-sided inverse. -/
+
+def readGMw (n k : Nat) : R (GM Rat n k) := do
+  let b ← readGM n k
+  let w ← vec rat k
+  pure { b with weight := w }
+
+def stepName (c : Nat) : BFL.Skip.StepName :=
+  match c with
+  | 0 => .prediction | 1 => .state | 2 => .exogenous | 3 => .correction | 4 => .all | _ => .unknown
+
+def invHist : (m : Nat) → Mat Rat m m → Mat Rat m m := fun m S =>
+  match matInv? m S with
+  | some X => Mat.eval X
+  | none => Mat.zero
+
+def kfh : R String := do
+  let n ← nat; let k ← nat; let exo ← nat
+  let sp ← bool; let ss ← bool; let se ← bool; let sc ← bool
+  let pw ← vec rat k
+  let corr0 ← readGMw n k
+  let nsteps ← nat
+  let mut sk : BFL.Skip.SkipState := { pred := sp, state := ss, exo := if exo != 0 then some se else none, corr := sc }
+  let mut st : KFFilter Rat n k := kfFilterInit { mean := fun _ => Vec.zero, cov := fun _ => Mat.zero, weight := pw } corr0
+  let mut out : Array String := #["ok"]
+  for _ in [0:nsteps] do
+    let ncmd ← nat
+    for _ in [0:ncmd] do
+      let nm ← nat; let on ← bool
+      sk := (BFL.Skip.filterSkip sk (stepName nm) on).st
+    let F ← matCM rat n n
+    let Q ← matCM rat n n
+    let exoF ← if exo != 0 then do
+        let G ← matCM rat n n
+        let g ← vec rat n
+        pure (some (fun x : Vec Rat n => (G.mulVec x).add g))
+      else pure none
+    let hasmeas ← bool
+    let meas ← if hasmeas then do
+        let m ← nat
+        let H ← matCM rat m n
+        let Rm ← matCM rat m m
+        let y ← vec rat m
+        pure (some ({ m := m, H := H, R := Rm, y := y } : KFMeas Rat n))
+      else pure none
+    let s : KFHStep Rat n := { F := F, Q := Q, exo := exoF, skipPred := sk.pred, skipState := sk.state,
+                               skipExo := sk.exo.getD false, meas := meas, skipCorr := sk.corr }
+    st := kfFilterStepE invHist st s
+    -- certificate: every innovation covariance the step inverted has an exact inverse
+    let cert := if s.skipCorr then true else
+      match s.meas with
+      | none => true
+      | some z => (List.finRange k).all fun i =>
+          let S := Mat.eval (kfS z.H (st.pred.cov i) z.R)
+          certInv z.m S (invHist z.m S)
+    let b2s := fun (b : Bool) => if b then "1" else "0"
+    out := out ++ #["step", b2s s.skipPred, b2s s.skipState, b2s s.skipExo, b2s s.skipCorr, b2s cert]
+    out := out ++ (outGM st.pred).toArray ++ (outGM st.corr).toArray
+    let inv : InvFn Rat := fun _ A => DriverGPF.invOr A
+    match @kfGetLikelihood Rat _ _ _ _ _ _ _ _ _ DriverGPF.ratTransc n k inv st with
+    | none => out := out.push "nolik"
+    | some l => out := out ++ #["lik"] ++ ((List.finRange k).map fun i => ratStr (l i)).toArray
+  done
+  pure (join out.toList)
+
+/-- `LinearMeasurementModel::predictedMeasure` + `::innovation` on a batch:
+      lmm n m k H X(n×k) c Y(m×(c+1))  ->  "ok" predicted(m×k) innovation(m×k) -/
+def lmm : R String := do
+  let n ← nat; let m ← nat; let k ← nat
+  let H ← matCM rat m n
+  let X ← matCM rat n k
+  let c ← nat
+  let Y ← matCM rat m (c + 1)
+  done
+  let P := linPredictedMeasure H X
+  pure (join ("ok" :: outMatCM ratStr P ++ outMatCM ratStr (Mat.eval (linInnovation P Y))))
+
+/-- `LTIMeasurementModel` constructor:  ltictor hr hc rr rc  ->  outcome -/
+def ltictor : R String := do
+  let hr ← nat; let hc ← nat; let rr ← nat; let rc ← nat
+  done
+  pure (match ltiMeasCtor hr hc rr rc with
+    | .ok => "ok" | .measEmpty => "throw:meas-empty" | .noiseEmpty => "throw:noise-empty"
+    | .noiseNotSquare => "throw:noise-not-square" | .rowsMismatch => "throw:rows-mismatch")
+
 def handle (op : String) (args : List String) : Option String :=
   match op with
   | "kfp" => some ((run kfp args).getD "bad-args")
   | "kfc" => some ((run kfc args).getD "bad-args")
   | "kfinfo" => some ((run kfinfo args).getD "bad-args")
   | "kflik" => some ((run kflik args).getD "bad-args")
+  | "kfh" => some ((run kfh args).getD "bad-args")
+  | "lmm" => some ((run lmm args).getD "bad-args")
+  | "ltictor" => some ((run ltictor args).getD "bad-args")
   | _ => none
 
 end BFL.DriverKF
